@@ -6,6 +6,7 @@ Init == tid \in 1..Len(Traces) /\ verdict = "pending"
 TV(t) == CASE t.what = "align" -> Verdict(t.c, t.o)
           [] t.what = "result" -> ResultVerdict(t.c, t.o)
           [] t.what = "opt" -> OptVerdict(t.c, t.o)
+          [] t.what = "nearunit" -> NearUnitVerdict(t.c, t.o)
 Next == /\ verdict = "pending"
         /\ LET t == Traces[tid]  v == TV(t) IN
              /\ verdict' = v /\ (v # "ok" => PrintT(<<"REJECT", t.id, v>>))
